@@ -317,7 +317,7 @@ def foreign_case(rec, kid, sub, usage, kind, cipher, halg, mixed=False, longpw=F
     pk = wire.split_packets(pubblob)
     blob = wire.build_packet(5, body(kid, pw)) + pk[1].raw + pk[2].raw + wire.build_packet(7, body(sub, pw2 if mixed else pw)) + pk[4].raw
     case = {'kind': 'foreign', 'kid': kid, 'sub': sub, 'usage': usage, 'spec': kind, 'cipher': cipher, 'hash': halg, 'mixed': mixed, 'longpw': longpw}
-    tag = '%s/usage%d' % (kind, usage) + ('/mixed-passphrases' if mixed else '') + ('/passphrase-longer-than-count' if longpw else '')
+    tag = '%s/usage%s' % (kind, usage) + ('/mixed-passphrases' if mixed else '') + ('/passphrase-longer-than-count' if longpw else '')
     rec.case(('foreign', kid, sub, usage, kind, cipher, halg, mixed), not (kind == 'iterated' and usage == 254 and not mixed),
              ['foreign/' + tag, 'foreign/cipher%d' % cipher, 'alg/' + kid.split('-')[0]], {'key': kid, 'subkey': sub, 'usage': usage, 's2k': kind, 'cipher': cipher, 'hash': halg, 'mixed': mixed})
     try:
@@ -512,6 +512,11 @@ def w_foreign(arg):
                 if i % nparts != part:
                     continue
                 foreign_case(rec, kid, SUBS[i % len(SUBS)], usage, kind, CIPHERS[i % len(CIPHERS)], [2, 8, 10, 1][i % 4])
+    # the legacy form of RFC 4880 5.5.3: the usage octet is itself the cipher id (key = MD5 of the passphrase)
+    for j, kid in enumerate(['rsa1024-0', 'ed25519-0', 'dsa1024-0', 'ecdsa-p256-0']):
+        i += 1
+        if i % nparts == part:
+            foreign_case(rec, kid, SUBS[j], 'legacy', 'simple', [7, 9, 3, 2][j], 1)
     for j, kid in enumerate(['ed25519-0', 'rsa1024-0', 'ecdsa-p256-0', 'dsa1024-0']):
         if j % nparts == part % 4:
             foreign_case(rec, kid, SUBS[j], 254, 'iterated', 9, 8, mixed=True)
